@@ -318,7 +318,7 @@ func (a *asyncRun) step() {
 			n.FailBlock = 1
 		case 2:
 			k := rng.Intn(50)
-			n.RejectPayload = func(p *Payload) bool { return (len(p.Key())+k)%11 == 0 }
+			n.RejectPayload = func(p *Payload) bool { return (int(p.T)+3*int(p.From)+int(p.V)+k)%11 == 0 }
 		default:
 			n.RejectPayload = nil
 		}
